@@ -2,6 +2,7 @@ package main
 
 import (
 	"go/types"
+	"math"
 	"math/bits"
 	"strconv"
 
@@ -143,6 +144,73 @@ func (e *Engine) cryptoIntrinsic(fn *ssa.Function, full string, args []Value) (V
 			return mkInt(1), true
 		}
 		return mkInt(0), true
+	case "strconv.FormatFloat", "strconv.AppendFloat":
+		// concrete floats: the real library decides the digits
+		off := 0
+		if fn.Name() == "AppendFloat" {
+			off = 1
+		}
+		f, okF := args[off].(FloatVal)
+		fm, okM := args[off+1].(*Term)
+		pr, okP := args[off+2].(*Term)
+		bs, okB := args[off+3].(*Term)
+		if !okF || !okM || !okP || !okB || !fm.konst || !pr.konst || !bs.konst {
+			unsupported("%s with symbolic arguments", full)
+		}
+		txt := strconv.FormatFloat(f.f, byte(fm.iv), int(pr.iv), int(bs.iv))
+		if off == 0 {
+			return mkStr(txt), true
+		}
+		dst, _ := args[0].(SliceVal)
+		elems := append([]Value{}, sliceElems(dst)...)
+		for i := 0; i < len(txt); i++ {
+			elems = append(elems, mkInt(int64(txt[i])))
+		}
+		return mkSlice(elems), true
+	case "strconv.ParseFloat":
+		if cs, ok := concreteStr(args[0]); ok {
+			bs := args[1].(*Term)
+			if !bs.konst {
+				unsupported("strconv.ParseFloat with symbolic bit size")
+			}
+			f, err := strconv.ParseFloat(cs, int(bs.iv))
+			if err != nil {
+				return TupleVal{FloatVal{f}, e.newError(mkStr("strconv.ParseFloat: " + err.Error()))}, true
+			}
+			return TupleVal{FloatVal{f}, IfaceVal{}}, true
+		}
+		unsupported("strconv.ParseFloat of a symbolic string")
+	case "math.Float64bits":
+		if f, ok := args[0].(FloatVal); ok {
+			b := math.Float64bits(f.f)
+			if b < 1<<62 {
+				return mkInt(int64(b)), true
+			}
+		}
+		unsupported("math.Float64bits outside the integer range of the engine")
+	case "math.IsNaN":
+		if f, ok := args[0].(FloatVal); ok {
+			return mkBool(math.IsNaN(f.f)), true
+		}
+	case "math.IsInf":
+		if f, ok := args[0].(FloatVal); ok {
+			if s, ok := args[1].(*Term); ok && s.konst {
+				return mkBool(math.IsInf(f.f, int(s.iv))), true
+			}
+		}
+	case "math.Floor", "math.Ceil", "math.Trunc", "math.Abs":
+		if f, ok := args[0].(FloatVal); ok {
+			switch fn.Name() {
+			case "Floor":
+				return FloatVal{math.Floor(f.f)}, true
+			case "Ceil":
+				return FloatVal{math.Ceil(f.f)}, true
+			case "Trunc":
+				return FloatVal{math.Trunc(f.f)}, true
+			default:
+				return FloatVal{math.Abs(f.f)}, true
+			}
+		}
 	case "math/bits.Len", "math/bits.Len64", "math/bits.Len32", "math/bits.Len8", "math/bits.Len16",
 		"math/bits.TrailingZeros", "math/bits.TrailingZeros64", "math/bits.TrailingZeros32", "math/bits.OnesCount", "math/bits.OnesCount64", "math/bits.LeadingZeros64", "math/bits.LeadingZeros":
 		x := args[0].(*Term)
